@@ -2,6 +2,7 @@ import T4V.Proofs.Transform
 import T4V.Proofs.RealOK
 import T4V.Proofs.Rot
 import T4V.Model.TRCard
+import T4V.Proofs.PotTransform
 /-!
 # Property C04 — coordinate transformations move surfaces by the MCNP rigid motion
 
@@ -542,4 +543,53 @@ example : ∃ m : M3 ℝ, normMatrix (pattern5 (0:ℝ) 1 0 0 1 1 2) = .ok (flat9
     Agrees (pattern5 (0:ℝ) 1 0 0 1 1 2) (flat9 m) :=
   row_column_completed transcOK_real ⟨0, 1, 0⟩ ⟨0, 0, 1⟩ rfl (by norm_num [V3.dot]) (by norm_num [V3.dot]) 1 2
     (by norm_num) (by norm_num)
+/-! ### cells: TRCL and FILL transformations move whole cells (`pot_transform`, `cell_transform`)
+
+`q` is a point in the frame of the cell that is moved, `p` its image; `v.σ`, `v.cv` are the senses of the surfaces and
+the membership in the cells at `q`, `v.σ'`, `v.cv'` the same at `p`.  `Agree tr st' v`: every surface number created
+by the walk has at `p` the sense its source (surface, facet) has at `q` — which is what `transformed_card` shows for
+the definition `transformation()` gives it, with `q = m.toAux p` — and every cell number created stands at `p` for its
+source at `q`. -/
+
+/-- **the tree `pot_transform` returns holds at the image point exactly when the original tree holds at the original
+point**: any tree without `#` (they are eliminated before), cell references followed to any depth, the cache in any
+state reached by earlier calls, the same or other transformations before -/
+theorem transformed_tree (tr fuel : Nat) (g g' : Geom) (st st' : PTSt)
+    (h : potTransform tr fuel g st = .ok (g', st')) (hc : CacheInMade st) (v : Vals) (ha : Agree tr st' v)
+    (hs : MadeSound tr st v) (hz : g.nonzero = true) (hf : g.complFree = true) :
+    g'.eval v.σ' v.cv' = g.eval v.σ v.cv :=
+  (((pt_all tr fuel).1 g st g' st' h hc).2.2 v ha hs).2 hz hf
+
+/-- **every cell `cell_transform` creates is the image of its source**: it is stored in the cell dictionary under a
+number of its own, and its tree holds at the image point exactly when the source tree holds at the original point;
+with the cache switched on or off -/
+theorem transformed_cell (tr fuel : Nat) (useCache : Bool) (c k : Nat) (st st' : PTSt)
+    (h : cellTransform tr useCache fuel c st = .ok (k, st')) (hc : CacheInMade st) (hm : MadeInCells st) :
+    ∃ e ∈ st'.made, e.cell = c ∧ e.tr = tr ∧ e.new = k ∧ (k, e.dst) ∈ st'.cells ∧ (c, e.src) ∈ st'.cells ∧
+      ∀ v, Agree tr st' v → MadeSound tr st v → e.src.nonzero = true → e.src.complFree = true →
+        e.dst.eval v.σ' v.cv' = e.src.eval v.σ v.cv := by
+  obtain ⟨-, -, ⟨e, he, h1, h2, h3⟩, hv⟩ := (pt_all tr (fuel)).2.2 useCache c st k st' h hc
+  have hmc := ((mc_all tr fuel).2.2 useCache c st k st' h hm).1 e he
+  exact ⟨e, he, h1, h2, h3, h3 ▸ hmc.1, h1 ▸ hmc.2, fun v ha hs hz hf => hv v ha hs e he h2 hz hf⟩
+
+/-- the numbers handed out (surfaces and cells) are pairwise different, so `Agree` never asks one number to stand
+for two things -/
+theorem new_numbers_fresh (tr fuel : Nat) (g g' : Geom) (st st' : PTSt)
+    (h : potTransform tr fuel g st = .ok (g', st')) (hf : Fresh st) :
+    (st'.newSurfs.map (·.1)).Nodup ∧ (st'.made.map (·.new)).Nodup :=
+  let r := ((fr_all tr fuel).1 g st g' st' h hf).1
+  ⟨r.2.1, r.2.2.2⟩
+
+/-- the state a conversion starts from meets every hypothesis above -/
+theorem initial_state_ok (ns nc : Nat) (cells : List (Nat × Geom)) (tr : Nat) (v : Vals) :
+    let st : PTSt := { nextSurf := ns, nextCell := nc, cells := cells }
+    CacheInMade st ∧ MadeInCells st ∧ Fresh st ∧ MadeSound tr st v := by
+  refine ⟨?_, ?_, ⟨?_, ?_, ?_, ?_⟩, ?_⟩ <;> simp [CacheInMade, MadeInCells, MadeSound]
+
+/-- a run: cell 5 (`2.1`) is referenced from the tree `-3 ∩ cell 5`; the walk creates surfaces 101, 102 and cell 51 -/
+example : ((potTransform 7 9 (.node .inter [.surf (-3) none, .cref 5])
+      { nextSurf := 100, nextCell := 50, cells := [(5, .surf 2 (some 1))] }).toOption.map
+      fun r => (r.2.newSurfs, r.2.cache, r.2.nextCell))
+    = some ([(101, (3, none, 7)), (102, (2, some 1, 7))], [((5, 7), 51)], 51) := by rfl
+
 end T4V.C04
